@@ -1,5 +1,6 @@
 import Sftp.Driver.C17
 import Sftp.Driver.C17Ls
+import Sftp.Driver.C17Time
 import Sftp.Driver.C09
 import Sftp.Driver.C10Path
 import Sftp.Driver.Codec
@@ -26,7 +27,7 @@ import Sftp.Driver.C19Ext
 open Sftp
 
 def allOps : List (String × (List String → String)) :=
-  Sftp.Driver.C17.ops ++ Sftp.Driver.C17Ls.ops ++ Sftp.Driver.C09.ops ++ Sftp.Driver.C10Path.ops ++ Sftp.Driver.Codec.ops ++
+  Sftp.Driver.C17.ops ++ Sftp.Driver.C17Ls.ops ++ Sftp.Driver.C17Time.ops ++ Sftp.Driver.C09.ops ++ Sftp.Driver.C10Path.ops ++ Sftp.Driver.Codec.ops ++
   Sftp.Driver.C16.ops ++ Sftp.Driver.C15.ops ++ Sftp.Driver.C02.ops ++
   Sftp.Driver.C18.ops ++ Sftp.Driver.C11.ops ++ Sftp.Driver.ClientConn.ops ++ Sftp.Driver.Transfer.ops ++ Sftp.Driver.C10.ops ++ Sftp.Driver.C06.ops ++ Sftp.Driver.C19.ops ++ Sftp.Driver.C20.ops ++ Sftp.Driver.Cur.ops ++ Sftp.Driver.Dispatch.ops ++ Sftp.Driver.C05Composite.ops ++ Sftp.Driver.C03Chan.ops ++ Sftp.Driver.C19Ext.ops
 
